@@ -24,7 +24,7 @@ ANNOTS = [{}, {}, {}, {"sbo": "SBO:0000247"}, {"kegg.compound": ["C1", "C2"], "c
           {"ec-code": ["1.1.1.27", "1.1.1.2"]}, {"pubmed": ["10108", "1010", "101"], "chebi": "CHEBI:1"},
           {"kegg.compound": ["C00031", "C0003"], "chebi": ["CHEBI:17234", "CHEBI:1723"]}]
 COEFFS = [1, -1, 2, -2, 0.5, -0.5, 0.25, 3, -1.5, 1.0, -1.0]
-OBJ_COEFFS = [1, 1, -1, 2, 0.5]
+OBJ_COEFFS = [1, 1, -1, 2, 0.5, 1e-8, -2.5]     # incl. a weight below the solver tolerance (a genuine coefficient)
 CFGS = [(-1000.0, 1000.0)] * 5 + [(-10.0, 10.0), (-1000.0, 50.0), (-99999.0, 99999.0), (-5.0, 1000.0)]
 
 
